@@ -58,22 +58,23 @@ theorem Vars.get_set_other (vs : Vars) {k k' : String} (v : UInt32) (h : k' ≠ 
 
 theorem Caller.set_some {c c' : Caller} {n : String} {v : Nat} (h : c.set n v = some c') :
     n ∈ x86Regs ∧ v ≤ U32MAX ∧ c'.vals = c.vals.set n (UInt32.ofNat v) ∧
-    c'.valid = (if n ∈ c.valid then c.valid else n :: c.valid) ∧ c'.clears = c.clears := by
-  unfold Caller.set at h
+    c'.valid = (if n ∈ c.valid then c.valid else n :: c.valid) ∧ c'.clears = c.clears ∧
+    c'.log = c.log ++ [(n, v)] := by
+  unfold Caller.set Caller.setCore at h
   by_cases h1 : n ∈ x86Regs
   · by_cases h2 : v ≤ U32MAX
-    · simp only [h1, h2, if_true, Option.some.injEq] at h
-      subst h; exact ⟨h1, h2, rfl, rfl, rfl⟩
+    · simp only [h1, h2, if_true, Option.map_some, Option.some.injEq] at h
+      subst h; exact ⟨h1, h2, rfl, rfl, rfl, rfl⟩
     · simp [h1, h2] at h
   · simp [h1] at h
 
 theorem Caller.set_ok (c : Caller) {n : String} {v : Nat} (h1 : n ∈ x86Regs) (h2 : v ≤ U32MAX) :
     ∃ c', c.set n v = some c' := by
-  unfold Caller.set; simp [h1, h2]
+  unfold Caller.set Caller.setCore; simp [h1, h2]
 
 theorem Caller.set_valid {c c' : Caller} {n : String} {v : Nat} (h : c.set n v = some c') (r : String) :
     r ∈ c'.valid ↔ r = n ∨ r ∈ c.valid := by
-  obtain ⟨_, _, _, hv, _⟩ := Caller.set_some h
+  obtain ⟨_, _, _, hv, _, _⟩ := Caller.set_some h
   rw [hv]
   by_cases hn : n ∈ c.valid
   · simp only [hn, if_true]
@@ -86,12 +87,12 @@ theorem Caller.set_valid {c c' : Caller} {n : String} {v : Nat} (h : c.set n v =
 
 theorem Caller.set_vals_self {c c' : Caller} {n : String} {v : Nat} (h : c.set n v = some c') :
     c'.vals.get n = some (UInt32.ofNat v) := by
-  obtain ⟨_, _, hv, _, _⟩ := Caller.set_some h
+  obtain ⟨_, _, hv, _, _, _⟩ := Caller.set_some h
   rw [hv]; exact Vars.get_set_self _ _ _
 
 theorem Caller.set_vals_other {c c' : Caller} {n : String} {v : Nat} (h : c.set n v = some c')
     {r : String} (hr : r ≠ n) : c'.vals.get r = c.vals.get r := by
-  obtain ⟨_, _, hv, _, _⟩ := Caller.set_some h
+  obtain ⟨_, _, hv, _, _, _⟩ := Caller.set_some h
   rw [hv]; exact Vars.get_set_other _ _ hr
 
 theorem Caller.clear_valid (c : Caller) (n r : String) :
@@ -124,6 +125,12 @@ theorem clearAll_valid (names : List String) (c : Caller) (r : String) :
       · rintro ⟨h3, h4⟩; exact h2 ⟨Or.inr h3, h4⟩
 
 theorem clearAll_vals (names : List String) (c : Caller) : (clearAll names c).vals = c.vals := by
+  unfold clearAll
+  induction names generalizing c with
+  | nil => rfl
+  | cons n ns ih => simp only [List.foldl_cons]; rw [ih]; rfl
+
+theorem clearAll_log (names : List String) (c : Caller) : (clearAll names c).log = c.log := by
   unfold clearAll
   induction names generalizing c with
   | nil => rfl
@@ -233,7 +240,21 @@ theorem applySets_clears {c c' : Caller} {sets : List (String × Nat)} {b : Bool
     | none => simp only [hs, Prod.mk.injEq] at h; obtain ⟨_, rfl⟩ := h; rfl
     | some c1 =>
       simp only [hs] at h
-      rw [ih h]; exact (Caller.set_some hs).2.2.2.2
+      rw [ih h]; exact (Caller.set_some hs).2.2.2.2.1
+
+/-- the recorded calls of a complete run are exactly the plan's calls -/
+theorem applySets_log {c c' : Caller} {sets : List (String × Nat)}
+    (h : applySets c sets = (true, c')) : c'.log = c.log ++ sets := by
+  induction sets generalizing c with
+  | nil => simp only [applySets, Prod.mk.injEq] at h; obtain ⟨_, rfl⟩ := h; simp
+  | cons e rest ih =>
+    obtain ⟨n, v⟩ := e
+    simp only [applySets] at h
+    cases hs : c.set n v with
+    | none => simp [hs] at h
+    | some c1 =>
+      simp only [hs] at h
+      rw [ih h, (Caller.set_some hs).2.2.2.2.2]; simp
 
 /-- a run whose names are x86 registers and whose values fit 32 bits never fails -/
 theorem applySets_ok (c : Caller) (sets : List (String × Nat))
